@@ -391,3 +391,85 @@ func init() {
 		return intrinsics[vrtPkg+".Str"](in, fr, a)
 	}
 }
+
+// (time.Time).Sub on symbolic instants without nanoseconds: the exact
+// saturating semantics, with the in-range product marked non-overflowing so
+// that a later Add(d) simplifies back to seconds.
+func init() {
+	intrinsics["(time.Time).Sub"] = func(in *Interp, fr *frame, a []Value) (Value, bool) {
+		t, ok1 := a[0].(Struct)
+		u, ok2 := a[1].(Struct)
+		if !ok1 || !ok2 {
+			return nil, false
+		}
+		_, ts := t[1].(SymInt)
+		_, us := u[1].(SymInt)
+		if !ts && !us {
+			return nil, false
+		}
+		tw, okt := t[0].(Int)
+		uw, oku := u[0].(Int)
+		if !okt || !oku || tw.V != 0 || uw.V != 0 {
+			return nil, false // nanoseconds or monotonic readings: run the real code
+		}
+		c := in.ctx
+		diff := c.BVBin(smt.OpBVSub, in.term(t[1]), in.term(u[1]))
+		const maxSec = 9223372036 // floor(MaxInt64 / 1e9)
+		inRange := c.And(c.Cmp(smt.OpSLe, c.BVConst(^uint64(maxSec)+1, 64), diff), c.Cmp(smt.OpSLe, diff, c.BVConst(maxSec, 64)))
+		if in.decide(inRange) {
+			return fromTerm(c.MulNoOvf(diff, 1000000000)), true
+		}
+		if in.decide(c.Cmp(smt.OpSLt, c.BVConst(0, 64), diff)) {
+			return mkInt(uint64(int64(1<<63-1)), 64), true
+		}
+		return mkInt(uint64(1)<<63, 64), true
+	}
+}
+
+// Hook intrinsics: functions of third-party packages whose types a harness
+// cannot name (importing the package would force a go.mod change) are
+// delegated to a harness function of the package under test, looked up by
+// name; the receiver is dropped. Without the hook function the real code runs.
+const caldavPkg = "github.com/emersion/go-webdav/caldav"
+
+func (in *Interp) hookFunc(name string) *ssa.Function {
+	p := in.prog.Pkgs[caldavPkg]
+	if p == nil {
+		return nil
+	}
+	return p.Func(name)
+}
+
+func init() {
+	drop := func(hook string) intrinsic {
+		return func(in *Interp, fr *frame, a []Value) (Value, bool) {
+			f := in.hookFunc(hook)
+			if f == nil {
+				return nil, false
+			}
+			in.noteStub("hook " + hook)
+			return in.call(fr, token.NoPos, f, a[1:]), true
+		}
+	}
+	intrinsics["(*github.com/teambition/rrule-go.Set).Between"] = drop("verifRecBetween")
+	intrinsics["(*github.com/teambition/rrule-go.Set).After"] = drop("verifRecAfter")
+	intrinsics["(*github.com/teambition/rrule-go.Set).Before"] = drop("verifRecBefore")
+	intrinsics["(*github.com/teambition/rrule-go.Set).All"] = drop("verifRecAll")
+	intrinsics["(*github.com/emersion/go-ical.Component).RecurrenceSet"] = func(in *Interp, fr *frame, a []Value) (Value, bool) {
+		f := in.hookFunc("verifRecurrenceSetHook")
+		if f == nil {
+			return nil, false
+		}
+		in.noteStub("hook verifRecurrenceSetHook")
+		has := in.call(fr, token.NoPos, f, a[:1])
+		// result type: (*rrule.Set, error)
+		callee := fr.fn
+		res := callee.Signature.Results()
+		pt := res.At(0).Type()
+		if !in.truth(has) {
+			return Tuple{zero(pt), Iface{}}, true
+		}
+		cell := zero(deref(pt))
+		return Tuple{&cell, Iface{}}, true
+	}
+}
